@@ -32,8 +32,9 @@ def signature(e, why):
         proc = why[5:]
         fn = e.get("func") or slug(e.get("msg"), 5) or "unknown"
         if proc == "died":
-            # the stack knows better than the journal which activity died (a shard load can also be
-            # started by a rescan while the process is already serving)
+            # the stack knows better than the journal which activity died: a panicking load goroutine runs
+            # its deferred wg.Done() while unwinding, so the searcher can become "ready" and a search can
+            # start before the process is gone
             phase = "load" if "search.loadShard" in e.get("stderr", "") else e["phase"]
             return "C11:died:%s:%s" % (phase, fn)
         return "C11:%s:%s%s" % (proc, e["phase"], (":" + e["func"]) if e.get("func") else "")
